@@ -238,6 +238,8 @@ def f_rt(script, name, bounded=False, args_quick=(), args_thorough=()):
     return run
 
 
+f_compile = f_rt("compile", "compile", bounded=True, args_quick=("--bound", "2", "--time-limit", "40"),
+                args_thorough=("--bound", "2", "--time-limit", "1200"))
 f_traces = f_rt("parser_traces", "parser-traces", bounded=True, args_quick=("--bound", "3"),
                 args_thorough=("--bound", "4", "--time-limit", "1500"))
 
@@ -248,16 +250,16 @@ PROPS = {
     "C03": dict(finite=[f_build_once, f_corpus(["ast"], "ast")]),
     "C04": dict(finite=[]),
     "C05": dict(finite=[f_json_identity]),
-    "C06": dict(finite=[]),
-    "C07": dict(finite=[]),
-    "C08": dict(finite=[]),
-    "C09": dict(finite=[]),
-    "C10": dict(finite=[]),
-    "C11": dict(finite=[]),
+    "C06": dict(finite=[f_compile]),
+    "C07": dict(finite=[f_compile]),
+    "C08": dict(finite=[f_compile]),
+    "C09": dict(finite=[f_compile]),
+    "C10": dict(finite=[f_compile]),
+    "C11": dict(finite=[f_compile]),
     "C12": dict(finite=[]),
     "C13": dict(finite=[f_docstring_states]),
     "C14": dict(finite=[f_modes, f_siblings, f_corpus(["errors"], "errors"), f_traces]),
-    "C15": dict(finite=[]),
+    "C15": dict(finite=[f_compile]),
     "C16": dict(finite=[]),
     "C17": dict(finite=[f_corpus(["source", "ast", "pickles", "errors"], "events")]),
     "C18": dict(finite=[f_table_extraction, f_build_once, f_lookahead_targets, f_corpus(["tokens"], "tokens"), f_traces]),
